@@ -15,7 +15,9 @@ THEOREMS = ["C14_whole_segment", "C14_rewrite_frame", "C14_roundtrip", "C14_hist
             "C14_first_match_frame", "C14_first_match_roundtrip", "C14_first_match_history", "C14_first_match_spec",
             "C14_unique_is_first", "C14_first_match_example", "C14_explicit_prefix_frame", "C14_explicit_prefix_history",
             "C14_explicit_prefix_spec", "C14_explicit_prefix_example",
-            "C14_prefix_before_params", "C14_match_locale_exact", "C14_match_bare", "C14_match_spec", "C14_swapped_refuted"]
+            "C14_prefix_before_params", "C14_match_locale_exact", "C14_match_bare", "C14_match_spec", "C14_swapped_refuted",
+            "C14_fragment_preserved", "C14_fragment_history", "C14_fragment_history_bare", "C14_fragment_examples",
+            "C14_double_hash_old_refuted"]
 PROPS = "theories/Props/C14.v"
 REGISTRY = {
     "level": "proof",
@@ -48,7 +50,7 @@ LOCALIZED = ["about", "a-propos", "ueber", "user", "utilisateur", "benutzer", "s
              "tietoja", "x", "édition"]
 PARAM_NAMES = ["id", "a", "b", "rest", "x"]
 QUERIES = ["", "", "a=1&b=2", "x=/fr/y", "q=fr?en"]
-HASHES = ["", "", "top", "/fr", "a?b"]
+HASHES = ["", "", "top", "/fr", "a?b", "#top", "#/fr", "##x", "#"]
 
 
 def S(s):
@@ -110,7 +112,9 @@ def url_path(names, dflt, bsegs, l, inst):
 
 
 def suffix(q, h):
-    return ("?" + q if q else "") + ("#" + h if h else "")
+    """what the property demands: same query, '#' + the fragment (hash without ONE leading '#') when non-empty"""
+    frag = h[1:] if h.startswith("#") else h
+    return ("?" + q if q else "") + ("#" + frag if frag else "")
 
 
 def base_string(rng, bsegs):
